@@ -2,10 +2,16 @@
 package main
 
 import (
+	"bytes"
+	"encoding/json"
 	"flag"
 	"fmt"
 	"os"
+	"os/exec"
+	"path/filepath"
 	"runtime/debug"
+	"sort"
+	"strings"
 
 	"gbverif/ir"
 	"gbverif/props"
@@ -33,6 +39,12 @@ func main() {
 			os.Exit(2)
 		}
 		props.Debug(p, os.Args[2])
+	case "control":
+		// control <Cxx> <seed-dir>: run the property's rules on /repo with the seeded patch overlaid (nothing is written)
+		if len(os.Args) < 4 {
+			usage()
+		}
+		os.Exit(control(os.Args[2], os.Args[3]))
 	case "check":
 		if len(os.Args) < 3 {
 			usage()
@@ -110,6 +122,153 @@ func run(id, tier, only string) (code int) {
 		}
 	}
 	rep.Extra["build_contexts"] = ctxNames
+	if tier == "thorough" && fatal == nil {
+		runControls(id, rep)
+	}
 	rep.Only(only)
 	return rep.Finish(fatal)
+}
+
+type controlResult struct {
+	Seed    string   `json:"seed"`
+	Applies bool     `json:"applies"`
+	Fired   []string `json:"fired"`
+	Error   string   `json:"error,omitempty"`
+}
+
+// control loads /repo with the seeded patch applied as an overlay and reports which rules fail.
+func control(id, seedDir string) int {
+	res := controlResult{Seed: filepath.Base(seedDir)}
+	out := func() int {
+		b, _ := json.Marshal(res)
+		fmt.Println("CONTROL " + string(b))
+		return 0
+	}
+	chk := props.Get(id)
+	if chk == nil {
+		res.Error = "unknown property"
+		return out()
+	}
+	patch, err := os.ReadFile(filepath.Join(seedDir, "patch.diff"))
+	if err != nil {
+		res.Error = err.Error()
+		return out()
+	}
+	var files []string
+	for _, ln := range strings.Split(string(patch), "\n") {
+		if strings.HasPrefix(ln, "+++ b/") {
+			files = append(files, strings.TrimSpace(strings.TrimPrefix(ln, "+++ b/")))
+		}
+	}
+	tmp, err := os.MkdirTemp("", "gbverif-control-")
+	if err != nil {
+		res.Error = err.Error()
+		return out()
+	}
+	defer os.RemoveAll(tmp)
+	for _, f := range files {
+		b, err := os.ReadFile(filepath.Join(ir.RepoDir(), f))
+		if err != nil {
+			return out() // file gone: the seeded change no longer applies to this tree
+		}
+		os.MkdirAll(filepath.Dir(filepath.Join(tmp, f)), 0o755)
+		os.WriteFile(filepath.Join(tmp, f), b, 0o644)
+	}
+	cmd := exec.Command("git", "apply", "--whitespace=nowarn", filepath.Join(seedDir, "patch.diff"))
+	cmd.Dir = tmp
+	if err := cmd.Run(); err != nil {
+		return out() // does not apply
+	}
+	res.Applies = true
+	overlay := map[string][]byte{}
+	for _, f := range files {
+		b, _ := os.ReadFile(filepath.Join(tmp, f))
+		overlay[filepath.Join(ir.RepoDir(), f)] = b
+	}
+	p, err := ir.Load(ir.RepoDir(), ir.BuildCtx{}, overlay)
+	if err != nil {
+		res.Error = "load: " + err.Error()
+		return out()
+	}
+	rep := report.New(id, "control")
+	func() {
+		defer func() {
+			if e := recover(); e != nil {
+				res.Error = fmt.Sprint("panic: ", e)
+			}
+		}()
+		chk.Run(&props.Ctx{P: p, R: rep, Tier: "quick"})
+	}()
+	res.Fired = rep.FailingRules()
+	return out()
+}
+
+// runControls: positive controls of the thorough tier. Every seeded change under <VERIF_DIR>/seeded that
+// was recorded as detected for this property is overlaid on the current tree in a child process; the
+// rules that caught it when it was recorded must fire again. A control whose patch no longer applies is skipped.
+func runControls(id string, rep *report.Report) {
+	rule := "T.controls"
+	metas, _ := filepath.Glob(filepath.Join(rep.VerifDir, "seeded", "*", "meta.json"))
+	sort.Strings(metas)
+	type meta struct {
+		ID       string   `json:"id"`
+		Property string   `json:"property"`
+		Detected bool     `json:"detected"`
+		Rules    []string `json:"detected_by_rules"`
+	}
+	var todo []meta
+	for _, m := range metas {
+		b, err := os.ReadFile(m)
+		if err != nil {
+			continue
+		}
+		var mt meta
+		if json.Unmarshal(b, &mt) != nil || mt.Property != id || !mt.Detected {
+			continue
+		}
+		todo = append(todo, mt)
+	}
+	if len(todo) == 0 {
+		return
+	}
+	rep.Rule(rule, "positive controls: each recorded seeded change for this property (a behaviour-breaking edit that compiles and passes the suite) is overlaid on the current tree without touching /repo, and at least one of the rules that caught it when it was recorded fires again; a control whose patch no longer applies to the tree is skipped", 0)
+	for _, mt := range todo {
+		dir := filepath.Join(rep.VerifDir, "seeded", mt.ID)
+		cmd := exec.Command(os.Args[0], "control", id, dir)
+		cmd.Env = append(os.Environ(), "VERIF_DIR="+os.TempDir())
+		var outb bytes.Buffer
+		cmd.Stdout = &outb
+		cmd.Stderr = nil
+		err := cmd.Run()
+		var res controlResult
+		found := false
+		for _, ln := range strings.Split(outb.String(), "\n") {
+			if strings.HasPrefix(ln, "CONTROL ") && json.Unmarshal([]byte(strings.TrimPrefix(ln, "CONTROL ")), &res) == nil {
+				found = true
+			}
+		}
+		cons := "seeded change " + mt.ID
+		switch {
+		case err != nil || !found:
+			rep.Undec(rule, "-", cons, "-", fmt.Sprintf("control run failed: %v", err))
+		case res.Error != "":
+			rep.Undec(rule, "-", cons, "-", "control run failed: "+res.Error)
+		case !res.Applies:
+			rep.Ok(rule, "-", cons, "-", "skipped: the recorded patch no longer applies to this tree")
+		default:
+			hit := ""
+			for _, want := range mt.Rules {
+				for _, got := range res.Fired {
+					if want == got {
+						hit = got
+					}
+				}
+			}
+			if hit != "" {
+				rep.Ok(rule, "-", cons, "-", "fires "+strings.Join(res.Fired, ", "))
+			} else {
+				rep.Undec(rule, "-", cons, "-", fmt.Sprintf("the seeded change applies but none of %v fired (fired: %v): the rule went blind", mt.Rules, res.Fired))
+			}
+		}
+	}
 }
